@@ -275,9 +275,9 @@ impl Ctx<'_> {
 }
 
 fn sep(rng: &mut Rng) -> &'static str {
-    match rng.below(4) {
+    // (a `;` directly followed by a line break is two terminators, i.e. a syntax error)
+    match rng.below(3) {
         0 => "; ",
-        1 => ";\n",
         _ => "\n",
     }
 }
@@ -645,6 +645,196 @@ fn composite(rng: &mut Rng, corpus: &[String]) -> String {
     text
 }
 
+/// W8: accepted programs whose *evaluation* has several things in flight: stuck terms holding
+/// several distinct stuck subterms (divisions by zero, definitions used too early), and values
+/// that are functions or types mentioning several names.
+fn runtime_program(rng: &mut Rng) -> String {
+    fn int_tree(rng: &mut Rng, depth: usize, vars: &[String]) -> String {
+        if depth == 0 || rng.chance(1, 4) {
+            return match rng.below(6) {
+                0 | 1 => format!("({} / 0)", rng.range(1, 99)),
+                2 => format!("({} / ({} - {}))", rng.range(1, 99), 7, 7),
+                3 if !vars.is_empty() => vars[rng.below(vars.len())].clone(),
+                _ => rng.below(50).to_string(),
+            };
+        }
+        let a = int_tree(rng, depth - 1, vars);
+        let b = int_tree(rng, depth - 1, vars);
+        match rng.below(7) {
+            0 | 1 => format!("({a} + {b})"),
+            2 => format!("({a} - {b})"),
+            3 => format!("({a} * {b})"),
+            4 => format!("({a} / {b})"),
+            5 => format!("(if {a} < {b} then {a} else {b})"),
+            _ => format!("(-{a})"),
+        }
+    }
+    match rng.below(6) {
+        0 | 1 => {
+            // several distinct divisions by zero in one expression
+            let depth = rng.range(1, 4);
+            format!("{}\n", int_tree(rng, depth, &[]))
+        }
+        2 => {
+            // through definitions and a function call
+            let n = rng.range(2, 5);
+            let mut text = String::new();
+            let mut vars = vec![];
+            for i in 0..n {
+                let name = format!("q{i}");
+                let depth = rng.range(0, 2);
+                text.push_str(&format!("{name} = {}\n", int_tree(rng, depth, &vars)));
+                vars.push(name);
+            }
+            let depth = rng.range(1, 3);
+            text.push_str(&format!("f = (x : int) => (y : int) => {} + x / y\n", int_tree(rng, depth, &vars)));
+            text.push_str(&format!("f {} 0\n", vars.join(" + ")));
+            text
+        }
+        3 => {
+            // accepted by the front end, stuck at run time for reasons other than division
+            let templates: &[&str] = &[
+                "x = (y = z + 1; z = 1 + 2; y); x\n",
+                "((f : int -> _) => f 1 + 1) ((x : int) => true)\n",
+                "g = (h : int -> _) => (k : int -> _) => h 1 + k 2\ng ((x : int) => true) ((y : int) => false)\n",
+                "a = (b = c + 1; c = 2 * 3; d = c + b; b + d); a + a\n",
+            ];
+            (*rng.pick(templates)).to_owned()
+        }
+        4 => {
+            // values that are functions / types with several names in them
+            let n = rng.range(2, 6);
+            let mut text = String::new();
+            let mut names = vec![];
+            for i in 0..n {
+                text.push_str(&format!("k{i} = {}\n", rng.below(100)));
+                names.push(format!("k{i}"));
+            }
+            let params: Vec<String> = (0..rng.range(1, 4)).map(|i| format!("p{i}")).collect();
+            let body: Vec<String> = names.iter().chain(params.iter()).cloned().collect();
+            let lambdas: String = params.iter().map(|p| format!("({p} : int) => ")).collect();
+            if rng.chance(1, 2) {
+                text.push_str(&format!("{lambdas}{}\n", body.join(" + ")));
+            } else {
+                let pis: String = params.iter().map(|p| format!("({p} : int) -> ")).collect();
+                text.push_str(&format!("{pis}(({}) == 0) -> type\n", body.join(" + ")));
+            }
+            text
+        }
+        _ => {
+            // a let with several definitions that survives into the printed value
+            let n = rng.range(2, 5);
+            let mut inner = String::new();
+            let mut names = vec![];
+            for i in 0..n {
+                inner.push_str(&format!("w{i} = x + {}; ", rng.below(100)));
+                names.push(format!("w{i}"));
+            }
+            format!("(x : int) => ({inner}{})\n", names.join(" * "))
+        }
+    }
+}
+
+/// Accepted programs that leave several *unresolved* holes in the elaborated term / type.
+fn holes_program(rng: &mut Rng) -> String {
+    match rng.below(5) {
+        0 => {
+            let n = rng.range(2, 6);
+            let params: String = (0..n).map(|i| format!("(h{i} : _) => ")).collect();
+            format!("{params}h{}\n", rng.below(n))
+        }
+        1 => {
+            let n = rng.range(2, 5);
+            let holes = vec!["_"; n].join(" ");
+            let pis: String = (0..n).map(|i| format!("(t{i} : type) -> ")).collect();
+            format!("(p : {pis}type) => p {holes}\n")
+        }
+        2 => "(f : _ -> _) => (g : _ -> _) => (x : _) => f (g x)\n".to_owned(),
+        3 => {
+            let n = rng.range(2, 4);
+            let mut text = String::new();
+            for i in 0..n {
+                text.push_str(&format!("u{i} : _ = (v{i} : _) => v{i}\n"));
+            }
+            text.push_str(&format!("u{}\n", rng.below(n)));
+            text
+        }
+        _ => "(a : _) => (b : _) => (c : _ -> _ -> _) => c a b\n".to_owned(),
+    }
+}
+
+/// Many diagnostics of one kind at once (thresholds such as "only the first N", table growth),
+/// repeated identical diagnostics (de-duplication), and near-miss names (suggestions).
+fn many_errors_program(rng: &mut Rng) -> String {
+    let n = rng.range(9, 40);
+    match rng.below(6) {
+        0 => {
+            // many distinct unbound names
+            let terms: Vec<String> = (0..n).map(|i| format!("missing{i}")).collect();
+            if rng.chance(1, 2) {
+                format!("{}\n", terms.join(" + "))
+            } else {
+                let mut text = String::new();
+                for (i, t) in terms.iter().enumerate() {
+                    text.push_str(&format!("r{i} = {t}\n"));
+                }
+                text.push_str("r0\n");
+                text
+            }
+        }
+        1 => {
+            // the same unbound name many times, plus a few others
+            let mut terms: Vec<String> = (0..n).map(|i| if i % 3 == 0 { format!("other{}", i % 4) } else { "same".to_owned() }).collect();
+            terms.push("1".to_owned());
+            format!("{}\n", terms.join(" + "))
+        }
+        2 => {
+            // near-miss names: several in-scope names at the same edit distance from a typo
+            let stem = *rng.pick(&["total", "count", "value", "index", "x", "ab"]);
+            let k = rng.range(2, 6);
+            let mut text = String::new();
+            for i in 0..k {
+                text.push_str(&format!("{stem}{i} = {i}\n"));
+            }
+            let typo = match rng.below(3) {
+                0 => format!("{stem}{}", k + 1),
+                1 => format!("{stem}_"),
+                _ => stem.to_owned(),
+            };
+            text.push_str(&format!("{stem}0 + {typo} + {typo}\n"));
+            text
+        }
+        3 => {
+            // many type errors, some identical
+            let mut text = String::new();
+            for i in 0..n {
+                match i % 4 {
+                    0 => text.push_str(&format!("e{i} : int = true\n")),
+                    1 => text.push_str(&format!("e{i} : bool = {i}\n")),
+                    2 => text.push_str(&format!("e{i} = true + {i}\n")),
+                    _ => text.push_str(&format!("e{i} = {i} {i}\n")),
+                }
+            }
+            text.push_str("e0\n");
+            text
+        }
+        4 => {
+            // many re-bound names
+            let mut text = String::new();
+            for i in 0..n {
+                text.push_str(&format!("dup{} = {i}\n", i % 5));
+            }
+            text.push_str("dup0\n");
+            text
+        }
+        _ => {
+            // many stray symbols
+            let strays: Vec<&str> = (0..n).map(|_| *rng.pick(STRAYS)).collect();
+            format!("x = 1 {}\nx\n", strays.join(" y "))
+        }
+    }
+}
+
 /// Generated case number `index` of the stream; `corpus` is W1.
 pub fn generate(rng: &mut Rng, corpus: &[String]) -> Case {
     // Swarm: the mix is itself drawn per case.
@@ -657,12 +847,13 @@ pub fn generate(rng: &mut Rng, corpus: &[String]) -> Case {
         }
     };
     match family {
-        0..=27 => Case { family: "W2-clusters", source: cluster_program(rng) },
-        28..=42 => {
+        0..=21 => Case { family: "W2-clusters", source: cluster_program(rng) },
+        22..=33 => {
             let n = rng.range(2, 5);
             Case { family: "W3-multi-fault", source: typed_program(rng, n, false) }
         }
-        43..=54 => {
+        34..=39 => Case { family: "W3-many-errors", source: many_errors_program(rng) },
+        40..=50 => {
             let base = match rng.below(4) {
                 0 => base_from_corpus(rng),
                 1 => cluster_program(rng),
@@ -671,7 +862,7 @@ pub fn generate(rng: &mut Rng, corpus: &[String]) -> Case {
             };
             Case { family: "W4-syntax-fault", source: syntax_faults(rng, &base) }
         }
-        55..=62 => {
+        51..=57 => {
             let base = match rng.below(3) {
                 0 => base_from_corpus(rng),
                 1 => cluster_program(rng),
@@ -679,10 +870,12 @@ pub fn generate(rng: &mut Rng, corpus: &[String]) -> Case {
             };
             Case { family: "W5-lexical-fault", source: lexical_faults(rng, &base) }
         }
-        63..=80 => {
+        58..=68 => {
             let source = if rng.chance(1, 2) { rich_program(rng) } else { typed_program(rng, 0, true) };
             Case { family: "W6-rich-accepted", source }
         }
+        69..=73 => Case { family: "W6-holes", source: holes_program(rng) },
+        74..=80 => Case { family: "W8-runtime", source: runtime_program(rng) },
         81..=92 => Case { family: "W7-composite", source: composite(rng, corpus) },
         _ => {
             // splice two corpus programs at token granularity
